@@ -466,7 +466,7 @@ def tr_for(fn, s, env, cont, live_rest):
     # any other tuple target is [srcloop]'s (below)
     if isinstance(s.target, ast.Tuple):
         _lg0, _lt0 = pure(fn, s.iter, env)
-        if _lt0.kind == "list" and getattr(getattr(_lt0, "arg", None), "kind", None) == "pair":
+        if _lt0.kind == "list" and getattr(getattr(_lt0, "arg", None), "kind", None) == "pair" and hasattr(_lt0.arg, "fst"):
             return tr_for_pair(fn, s, env, cont, live_rest)
     lg, lt = pure(fn, s.iter, env)
     if lt.kind != "list":
